@@ -85,7 +85,7 @@ Proof. exact no_ub. Qed.
    the up-front hint check, the fullness test, the guard of the surplus probe and the announced
    tuple length of src/impl_serde.rs, as they stand now, are what the model's visit_seq uses *)
 From Coq Require Import String.
-From GA Require Import Guards GuardTie.
+From GA Require Import Guards GuardTieSerde.
 From GAGen Require Import GenGuards.
 Local Open Scope Z_scope.
 
@@ -109,7 +109,7 @@ Proof. exact tie_serde_tuple_len. Qed.
 
 (* ---- T1: which trait methods are implemented (coq/gen/GenSigs.v gen_impl_methods) ---- *)
 From Coq Require Import String.
-From GA Require Import SigTie.
+From GA Require Import SigDefs.
 From GAGen Require Import GenSigs.
 Local Open Scope string_scope.
 
